@@ -297,15 +297,18 @@ def addLoop (env : Env) (w : Wallet) : Nat → Nat → St → Outcome St
       else .err "ValueOverflow"
     else .ok st
 
+/-- `min_value`: the recipient script's dust value for `Postage`, else the requested value -/
+def minValue (env : Env) (r : Request) (last : TxOut) : Nat :=
+  match r.target with
+  | .postage => env.dust last.1
+  | .value v => v
+  | .exact v => v
+
 def addValue (env : Env) (w : Wallet) (r : Request) (st : St) : Outcome St := do
   let estimatedFee := env.fee (vsize st.inputs.length st.outputs)
   let last ← lastOut "unwrap-none@add_value" st.outputs
-  let minValue := match r.target with
-    | .postage => env.dust last.1
-    | .value v => v
-    | .exact v => v
-  if minValue + estimatedFee < U64 then
-    let total := minValue + estimatedFee
+  if minValue env r last + estimatedFee < U64 then
+    let total := minValue env r last + estimatedFee
     if last.2 ≤ total then addLoop env w (st.utxos.length + 1) (total - last.2) st
     else .ok st
   else .err "ValueOverflow"
@@ -325,7 +328,8 @@ def stripValue (env : Env) (w : Wallet) (r : Request) (st : St) : Outcome St := 
   let vb := vsize st.inputs.length st.outputs
   if env.fee vb ≤ value then
     let excess := value - env.fee vb
-    let (mx, target) := maxTarget r.target
+    let mx := (maxTarget r.target).1
+    let target := (maxTarget r.target).2
     if excess > mx then
       let diff ← subW "unwrap-none@strip_value" value target
       match st.unused with
@@ -383,26 +387,34 @@ def buildFindOutput (rcp : Script) (satOffset : Nat) : List TxOut → Nat → Ou
 def countScript (s : Script) (outs : List TxOut) : Nat :=
   (outs.filter (fun o => decide (o.1 = s))).length
 
+/-- the target check on the recipient output's value -/
+def checkRecipientValue (env : Env) (r : Request) (value : Nat) : Outcome Unit :=
+  let slop := env.fee ADDITIONAL_OUTPUT_VBYTES
+  match r.target with
+  | .postage => do
+    let cap ← amountAdd "amount-add@build.slop" MAX_POSTAGE slop
+    assert (decide (value ≤ cap)) "inv:excess_postage_is_stripped"
+  | .exact p => do
+    let cap ← amountAdd "amount-add@build.slop" p slop
+    assert (decide (value ≤ cap)) "inv:excess_postage_is_stripped"
+  | .value v => do
+    let over ← subW "unwrap-none@build.value" value v
+    let cap ← amountAdd "amount-add@build.slop" (max (env.dust r.change0) (env.dust r.change1)) slop
+    assert (decide (over ≤ cap)) "inv:output_equals_target_value"
+
+/-- body of the per-output loop -/
+def checkOutput (env : Env) (r : Request) (satOffset : Nat) (o : TxOut) (offset : Nat) : Outcome Unit :=
+  if o.1 = r.recipient then do
+    checkRecipientValue env r o.2
+    assert (offset == satOffset) "inv:sat_is_at_first_position_in_recipient_output"
+  else
+    assert (decide (o.1 = r.change0 ∨ o.1 = r.change1)) "inv:all_outputs_are_either_change_or_recipient"
+
 /-- the per-output loop with the target checks -/
 def buildCheckOutputs (env : Env) (r : Request) (satOffset : Nat) : List TxOut → Nat → Outcome Unit
   | [], _ => .ok ()
   | o :: rest, offset => do
-    if o.1 = r.recipient then
-      let slop := env.fee ADDITIONAL_OUTPUT_VBYTES
-      match r.target with
-      | .postage =>
-        let cap ← amountAdd "amount-add@build.slop" MAX_POSTAGE slop
-        assert (decide (o.2 ≤ cap)) "inv:excess_postage_is_stripped"
-      | .exact p =>
-        let cap ← amountAdd "amount-add@build.slop" p slop
-        assert (decide (o.2 ≤ cap)) "inv:excess_postage_is_stripped"
-      | .value v =>
-        let over ← subW "unwrap-none@build.value" o.2 v
-        let cap ← amountAdd "amount-add@build.slop" (max (env.dust r.change0) (env.dust r.change1)) slop
-        assert (decide (over ≤ cap)) "inv:output_equals_target_value"
-      assert (offset == satOffset) "inv:sat_is_at_first_position_in_recipient_output"
-    else
-      assert (decide (o.1 = r.change0 ∨ o.1 = r.change1)) "inv:all_outputs_are_either_change_or_recipient"
+    checkOutput env r satOffset o offset
     let offset' ← u64Add "add-overflow@build.offset" offset o.2
     buildCheckOutputs env r satOffset rest offset'
 
